@@ -123,6 +123,15 @@ def buildUrl (gateway job : Str) (gk : List (Str × Str)) : Str :=
   let e := escapeGroupingKey jobLit job
   fmt urlFmt [gatewayBase gateway, e.1, e.2] ++ (orderedItems gk).flatMap pairPiece
 
+/-- the escaped segments `name, value, name, value, …` of a list of labels -/
+def segments (l : List (Str × Str)) : List Str :=
+  l.flatMap (fun kv => [(escapeGroupingKey kv.1 kv.2).1, (escapeGroupingKey kv.1 kv.2).2])
+
+/-- the part of the URL after `/metrics/`, as a `/`-join of the segments
+(`Props.C19.buildUrl_eq`: `buildUrl g job gk = gatewayBase g ++ "/metrics/" ++ buildPath job gk`) -/
+def buildPath (job : Str) (gk : List (Str × Str)) : Str :=
+  joinStr ['/'] (segments ((jobLit, job) :: orderedItems gk))
+
 /-- what the injected handler receives -/
 structure Request (β τ : Type) where
   url : Str
